@@ -185,7 +185,8 @@ class C06(TraceProp):
     theorems = ['Continuum.c06_db_holds', 'Continuum.c06_as_if_never', 'Continuum.c06_as_if_never_run', 'Continuum.c06_uow_gone',
                 'Continuum.c06_savepoint_released', 'Continuum.c06_savepoint_db', 'Continuum.c06_savepoint_no_flush_corrected',
                 'Continuum.c06_savepoint_rolled_back', 'Continuum.c06_savepoint_fixed_example', 'Continuum.sp_bracket_erase',
-                'Continuum.run_sameButCache']
+                'Continuum.run_sameButCache', 'Continuum.cacheComplete_run', 'Continuum.fresh_version_object_safe',
+                'Continuum.cacheComplete_needs_flag']
     level = 'proof'
     sections = ('versions', 'txs', 'assoc', 'mgr')
     seg_fields = ('C06db',)
